@@ -28,6 +28,10 @@ type kase struct {
 	Position string `json:"position"`
 	Variant  string `json:"variant"`
 	JSON     bool   `json:"json_requested"`
+	Headers  string `json:"representation_headers,omitempty"`
+	Lead     bool   `json:"payload_led_by_sniffable_prefix,omitempty"`
+	View     string `json:"browser_view,omitempty"`
+	TwinView string `json:"benign_twin_browser_view,omitempty"`
 	Class    string `json:"payload_class"`
 	Payload  string `json:"payload_quoted"`
 	Twin     string `json:"benign_twin_quoted"`
@@ -58,18 +62,21 @@ func gcd(a, b int) int {
 func isHTML(ct string) bool { return strings.HasPrefix(strings.ToLower(ct), "text/html") }
 func isJSON(ct string) bool { return strings.HasPrefix(strings.ToLower(ct), "application/json") }
 
-func pageKind(stack string, ct string, v *htmlView, body []byte) string {
+// pageKind names the page a response is. class is the browser's view of the response (json | html | xml | ...).
+func pageKind(stack string, class string, v *htmlView, body []byte) string {
 	s := stack
 	if s == "dauth" {
 		s = "auth"
 	}
 	switch {
-	case isJSON(ct):
+	case class == "json":
 		if s == "proxy" {
 			return "proxy.xhr_json"
 		}
 		return "auth.error_json"
-	case isHTML(ct) && v != nil:
+	case class == "xml" && v != nil:
+		return s + ".xml_document"
+	case class == "html" && v != nil:
 		switch v.Title {
 		case "Error":
 			return s + ".error_page"
@@ -111,16 +118,14 @@ func excerptAround(body []byte, needle string) string {
 func TestProp(t *testing.T) {
 	env := vh.GetEnv()
 	rep := vh.NewReport("C20", "exploration")
-	rep.Rule("cases stride over the product (request-controlled position x wire variant x HTML/JSON accept x payload class); the payload instance is drawn per case from the class (random member, random case flips, random fragment mixes) around a unique alphanumeric marker. Every case renders the page twice: hostile payload and its benign twin (same bytes with every HTML-significant byte neutralised). distinct = (position, variant, accept, payload class, status, page kind, reached) of cases whose response was a page or JSON body of sso")
+	rep.Rule("stream c20: cases stride over the product (request-controlled position x wire variant x HTML/JSON accept x payload class); the payload instance is drawn per case from the class (random member, random case flips, random fragment mixes) around a unique alphanumeric marker. Every case renders the page twice: hostile payload and its benign twin (same bytes with every HTML-significant byte neutralised). distinct = (position, variant, accept, payload class, status, page kind, reached) of cases whose response was a page or JSON body of sso. Stream c20rep (representation): every position under every set of representation-selecting request headers (Accept in 24 spellings, X-Requested-With, request Content-Type, Accept-Charset, Accept-Language and combinations; same headers on the hostile and the benign request); the walk covers each (position, header set) pair, wire variant / payload class / instance are drawn per case, and every payload is prefixed with bytes a content sniffer recognises (<script>, <!DOCTYPE, <html, white space + <, <?xml, %PDF-, BOMs ...) or, as controls, does not. Request header VALUES are positions of their own (proxy.reqheader, auth.reqheader.*). Oracle: every response is classified by what a browser does with it, from the response alone: declared text/html => HTML; XML types => XML; JSON types => JSON; absent / text/plain / application/octet-stream WITHOUT X-Content-Type-Options: nosniff => sniffed with http.DetectContentType on the first 512 bytes (WHATWG rules); text/plain WITH nosniff => inert text (counted). Markup documents are compared with the benign render of the same request (token skeleton, marker slots, parse tree); if the benign render with the same status is not the same kind of markup document, the request text decided the document type: violation")
 	rep.Assume("x/net/html's tokenizer and tree builder read a page the way a browser does (HTML5 algorithm); a page that declares UTF-8 (BOM, Content-Type charset, or <meta> in the first 1024 bytes) is decoded as UTF-8; a page that does not is additionally read through hand-written WHATWG-style ISO-2022-JP and lenient UTF-7 decoders, standing in for a sniffing browser")
 	rep.Assume("the benign twin (letters, digits, bytes >= 0x80, and % . - _ ~ : / ? # @ + ; , only; controls mapped to 0x01) cannot itself change page structure")
 	rep.Assume("provider error strings are exercised through the real Authenticator mounted on a scripted provider (auth.NewAuthenticator + SetProvider), because the Okta provider only emits fixed error values and encoding/json syntax errors")
 
-	only, skipAll := env.Only("c20")
-	if skipAll {
-		rep.Finish()
-		return
-	}
+	rep.Assume("http.DetectContentType implements the WHATWG MIME sniffing rules a browser applies to a sniffable response; a browser honours X-Content-Type-Options: nosniff on text/plain")
+
+	only, skipMain := env.Only("c20")
 
 	ps, err := sut.NewProxyStack(sut.ProxyOpts{Upstreams: []sut.UpstreamSpec{
 		{Service: "app", From: appHost, AllowedEmailDomains: []string{"corp.test"}},
@@ -151,6 +156,9 @@ func TestProp(t *testing.T) {
 	positions := allPositions()
 	var cells []cell
 	for _, p := range positions {
+		if p.repOnly {
+			continue
+		}
 		for _, v := range p.variants {
 			cells = append(cells, cell{p, v, false})
 			if p.jsonable {
@@ -169,6 +177,9 @@ func TestProp(t *testing.T) {
 	rep.Extra("payload_classes", len(classes))
 
 	start := time.Now()
+	if skipMain {
+		n = 0
+	}
 	vh.ForEach(n, 0, only, func(i int) {
 		r := vh.CaseRNG(env.Seed, "c20", i)
 		idx := (i*stride + int(env.Seed%1000003)*7919) % total
@@ -177,9 +188,39 @@ func TestProp(t *testing.T) {
 		}
 		cl := cells[idx%len(cells)]
 		pc := classes[idx/len(cells)]
-		runCase(rep, c, i, cl, pc, r)
+		runCase(rep, c, "c20", i, cl, pc, nil, r)
 	})
 	rep.Extra("wall_workload_s", time.Since(start).Seconds())
+
+	// ---- representation stream: every position under every representation-selecting header set, payloads led by
+	// bytes a content sniffer recognises. The walk covers each (position, header set) pair once per len(pairs) cases;
+	// wire variant, payload class, lead and instance are drawn per case.
+	onlyRep, skipRep := env.Only("c20rep")
+	pairs := len(positions) * len(hdrSets)
+	nRep := env.Pick(pairs+pairs/4, 8*pairs)
+	rep.Extra("header_sets", len(hdrSets))
+	rep.Extra("position_x_header_set_pairs", pairs)
+	if !skipRep {
+		strideRep := 7919
+		for gcd(strideRep, pairs) != 1 {
+			strideRep += 2
+		}
+		startRep := time.Now()
+		vh.ForEach(nRep, 0, onlyRep, func(i int) {
+			r := vh.CaseRNG(env.Seed, "c20rep", i)
+			idx := (i*strideRep + int(env.Seed%1000003)*104729) % pairs
+			if idx < 0 {
+				idx += pairs
+			}
+			p := positions[idx%len(positions)]
+			hs := &hdrSets[idx/len(positions)]
+			cl := cell{p, p.variants[r.Intn(len(p.variants))], false}
+			pc := repClass(r, hs)
+			rep.SetAdd("position_x_header_set", p.name+"|"+hs.name)
+			runCase(rep, c, "c20rep", i, cl, pc, hs, r)
+		})
+		rep.Extra("wall_representation_stream_s", time.Since(startRep).Seconds())
+	}
 	if p := as.ErrLog.Panics(); p > 0 {
 		rep.Count("auth_handler_panics", p)
 	}
@@ -187,7 +228,15 @@ func TestProp(t *testing.T) {
 		rep.Count("proxy_handler_panics", p)
 	}
 
-	if only < 0 {
+	if only < 0 && onlyRep < 0 && !skipMain && !skipRep {
+		for _, hs := range hdrSets {
+			rep.Floor("hdrset."+hs.name, len(positions)/2)
+		}
+		rep.Floor("rep_stream.html_compared_with_twin", 300)
+		rep.Floor("rep_stream.lead_payload_reached_page", 150)
+		rep.Floor("rep_stream.json_bodies_checked", 50)
+		rep.Floor("text_plain_nosniff_inert", 10)
+		rep.Floor("browser_view.html.declared", 1000)
 		for _, k := range []string{"kind.proxy.error_page", "kind.proxy.xhr_json", "kind.auth.error_page", "kind.auth.error_json", "kind.auth.sign_in_page", "kind.auth.sign_out_page", "kind.auth.sign_out_page.message"} {
 			rep.Floor(k, 10)
 		}
@@ -207,10 +256,17 @@ func TestProp(t *testing.T) {
 	}
 }
 
-func runCase(rep *vh.Report, c *ctx, i int, cl cell, pc payloadClass, r *rand.Rand) {
+func runCase(rep *vh.Report, c *ctx, stream string, i int, cl cell, pc payloadClass, hs *hdrSet, r *rand.Rand) {
 	pos := cl.pos
 	marker := "zqx" + strconv.FormatInt(int64(i), 36) + "q"
+	if stream != "c20" {
+		marker = "zqr" + strconv.FormatInt(int64(i), 36) + "q"
+	}
 	payload := pc.gen(r, marker)
+	if hs != nil {
+		// representation stream: sniffers look at the beginning of a body, so the payload starts with bytes they know
+		payload = withLead(r, payload)
+	}
 	if pos.prep != nil {
 		payload = pos.prep(r, payload, marker)
 	}
@@ -219,6 +275,10 @@ func runCase(rep *vh.Report, c *ctx, i int, cl cell, pc payloadClass, r *rand.Ra
 		twin = pos.twin(payload)
 	}
 	k := &kcase{variant: cl.variant, json: cl.json, ts: time.Now().Unix(), marker: marker, sel: r.Intn(1 << 20)}
+	if hs != nil {
+		k.hdrs = hs.h
+		rep.Count("hdrset."+hs.name, 1)
+	}
 	rep.Eval()
 
 	hr, hNeedles := pos.run(c, k, payload)
@@ -230,7 +290,7 @@ func runCase(rep *vh.Report, c *ctx, i int, cl cell, pc payloadClass, r *rand.Ra
 		tNeedles = []string{marker}
 	}
 	rep.Count("renders", 2)
-	kc := kase{Index: i, Position: pos.name, Variant: cl.variant, JSON: cl.json, Class: pc.name, Payload: quoteClip(payload), Twin: quoteClip(twin)}
+	kc := kase{Index: i, Position: pos.name, Variant: cl.variant, JSON: cl.json, Headers: hs.String(), Lead: hs != nil, Class: pc.name, Payload: quoteClip(payload), Twin: quoteClip(twin)}
 	if hr.Err != nil || tr.Err != nil {
 		// the server closed the connection or refused the bytes before any handler ran
 		rep.Count("transport_error", 1)
@@ -240,24 +300,54 @@ func runCase(rep *vh.Report, c *ctx, i int, cl cell, pc payloadClass, r *rand.Ra
 		}
 		return
 	}
-	hct, tct := hr.Header.Get("Content-Type"), tr.Header.Get("Content-Type")
+	hct := hr.Header.Get("Content-Type")
 	kc.Status, kc.TwinStat, kc.CT = hr.Status, tr.Status, hct
 	rep.Count(fmt.Sprintf("status.%s.%d", pos.stack, hr.Status), 1)
+
+	// what a browser does with each of the two responses - decided from the response, not from the endpoint
+	hbv, tbv := browserView(hr.Header, hr.Body), browserView(tr.Header, tr.Body)
+	kc.View, kc.TwinView = hbv.String(), tbv.String()
+	for _, bv := range []bview{hbv, tbv} {
+		rep.Count("browser_view."+bv.Class+"."+bv.How, 1)
+		if bv.Class != "empty" && !bv.NoSniff {
+			rep.Count("response_without_nosniff."+pos.stack+"."+bv.Class, 1)
+		}
+	}
+	if hs != nil {
+		rep.Count("rep_stream.hostile_view."+hbv.Class, 1)
+	}
+	dcase := func(parts ...string) string {
+		if hs != nil {
+			parts = append(parts, "hdr:"+hs.name)
+		}
+		return strings.Join(parts, "|")
+	}
 
 	violate := func(clause, kind, what, needle string) {
 		kc.Detail = what
 		kc.BodyClip = excerptAround(hr.Body, needle)
 		sig := fmt.Sprintf("%s page=%s input=%s", clause, kind, pos.group)
-		rep.Violate("c20", i, sig, fmt.Sprintf("%s: %s (position %s, variant %s, payload class %s)", sig, what, pos.name, cl.variant, pc.name), kc)
+		ctxs := fmt.Sprintf("position %s, variant %s, payload class %s", pos.name, cl.variant, pc.name)
+		if hs != nil {
+			ctxs += ", request headers " + hs.name
+		}
+		rep.Violate(stream, i, sig, fmt.Sprintf("%s: %s (%s)", sig, what, ctxs), kc)
 	}
 
 	// ---- JSON bodies (the twin's body is a response of sso like any other)
 	for n, rs := range []*sut.Resp{hr, tr} {
-		if !isJSON(rs.Header.Get("Content-Type")) {
+		bv := hbv
+		if n == 1 {
+			bv = tbv
+		}
+		if bv.Class != "json" {
 			continue
 		}
 		rep.Count("json_bodies_checked", 1)
-		kind := pageKind(pos.stack, rs.Header.Get("Content-Type"), nil, rs.Body)
+		if hs != nil {
+			rep.Count("rep_stream.json_bodies_checked", 1)
+		}
+		kind := pageKind(pos.stack, "json", nil, rs.Body)
 		if ok, why := jsonVerdict(rs.Body); !ok {
 			rep.Count("json_ill_formed", 1)
 			if n == 1 {
@@ -265,7 +355,7 @@ func runCase(rep *vh.Report, c *ctx, i int, cl cell, pc payloadClass, r *rand.Ra
 			}
 			kc.BodyClip = excerptAround(rs.Body, marker)
 			sig := fmt.Sprintf("json-body-not-one-well-formed-value page=%s input=%s", kind, pos.group)
-			rep.Violate("c20", i, sig, fmt.Sprintf("%s: %s (position %s, variant %s, payload class %s)", sig, why, pos.name, cl.variant, pc.name), kc)
+			rep.Violate(stream, i, sig, fmt.Sprintf("%s: %s (position %s, variant %s, payload class %s, request headers %q)", sig, why, pos.name, cl.variant, pc.name, hs.String()), kc)
 		} else {
 			rep.Count("json_well_formed", 1)
 		}
@@ -275,18 +365,42 @@ func runCase(rep *vh.Report, c *ctx, i int, cl cell, pc payloadClass, r *rand.Ra
 			if strings.Contains(string(rs.Body), marker) {
 				rep.Count("json_marker_echoed", 1)
 			}
-			rep.Distinct(strings.Join([]string{pos.name, cl.variant, "json", pc.name, strconv.Itoa(rs.Status), kind}, "|"))
+			rep.Distinct(dcase(pos.name, cl.variant, "json", pc.name, strconv.Itoa(rs.Status), kind))
 		}
 	}
 
-	if !isHTML(hct) {
-		if !isJSON(hct) {
+	if !hbv.markup() {
+		isJ := hbv.Class == "json"
+		if !isJ {
 			rep.Count("non_page_response."+pos.stack+"."+strconv.Itoa(hr.Status), 1)
-			if len(hr.Body) > 0 && containsAny(string(hr.Body), hNeedles) && pos.group != "bad-escape" {
+			reachedText := len(hr.Body) > 0 && containsAny(string(hr.Body), hNeedles) && pos.group != "bad-escape"
+			if reachedText {
 				rep.Count("marker_in_non_html_body", 1)
 			}
+			switch {
+			case hbv.Class == "text-inert" && hbv.NoSniff:
+				// text/plain that the browser is told not to sniff: whatever it says is shown as text
+				rep.Count("text_plain_nosniff_inert", 1)
+				if reachedText {
+					rep.Count("text_plain_nosniff_inert_showing_request_text", 1)
+				}
+			case hbv.Class == "text-inert":
+				// sniffable, but nothing at its beginning that a sniffer takes for markup
+				rep.Count("sniffable_response_sniffed_as_text."+pos.stack+"."+strconv.Itoa(hr.Status), 1)
+				if reachedText {
+					rep.Count("sniffable_response_sniffed_as_text_showing_request_text", 1)
+				}
+			case hbv.Class == "other":
+				rep.Count("dontcare.non_markup_media_type."+hbv.Media, 1)
+			}
+			if hbv.Class != "empty" {
+				rep.Distinct(dcase(pos.name, cl.variant, fmt.Sprint(cl.json), pc.name, strconv.Itoa(hr.Status), nonMarkupKind(pos.stack, hbv), fmt.Sprint(reachedText)))
+			}
+			if tbv.markup() && tr.Status == hr.Status {
+				rep.Count("hostile_render_inert_but_benign_render_markup", 1)
+			}
 		}
-		if isJSON(hct) {
+		if isJ {
 			rep.Count("json_checked."+pos.name, 1)
 			var v interface{}
 			if json.Unmarshal(hr.Body, &v) == nil && containsAny(fmt.Sprint(v), hNeedles) {
@@ -297,12 +411,20 @@ func runCase(rep *vh.Report, c *ctx, i int, cl cell, pc payloadClass, r *rand.Ra
 		return
 	}
 
-	// ---- HTML pages
-	hv := analyse(hr.Body, hNeedles, payload)
-	kind := pageKind(pos.stack, hct, hv, hr.Body)
+	// ---- documents a browser parses as markup (HTML declared or sniffed; XML)
+	look := analyse
+	if hbv.Class == "xml" {
+		look = analyseXML
+		rep.Count("xml_documents_tokenised", 1)
+	}
+	hv := look(hr.Body, hNeedles, payload)
+	kind := pageKind(pos.stack, hbv.Class, hv, hr.Body)
 	kc.Kind = kind
 	rep.Count("kind."+kind, 1)
 	rep.Count("html_pages_tokenised", 1)
+	if hbv.How == "sniffed" {
+		rep.Count("markup_by_browser_sniffing."+pos.stack, 1)
+	}
 	declared, declSrc := declaredCharset(hct, hr.Body)
 	if declared == "" {
 		rep.Count("html_declared_charset.none", 1)
@@ -323,6 +445,9 @@ func runCase(rep *vh.Report, c *ctx, i int, cl cell, pc payloadClass, r *rand.Ra
 		rep.Count("reached."+pos.name, 1)
 		rep.Count("marker_in_text", hv.TextOcc)
 		rep.Count("marker_in_attribute_value", hv.AttrOcc)
+		if hs != nil {
+			rep.Count("rep_stream.lead_payload_reached_page", 1)
+		}
 		if hv.Verbatim {
 			rep.Count("payload_shown_verbatim", 1)
 		}
@@ -335,7 +460,7 @@ func runCase(rep *vh.Report, c *ctx, i int, cl cell, pc payloadClass, r *rand.Ra
 			fmt.Printf("NOTREACHED %s %s json=%v class=%s status=%d/%d payload=%s needles=%q body=%s\n", pos.name, cl.variant, cl.json, pc.name, hr.Status, tr.Status, quoteClip(payload), hNeedles, excerptAround(hr.Body, "details"))
 		}
 	}
-	rep.Distinct(strings.Join([]string{pos.name, cl.variant, fmt.Sprint(cl.json), pc.name, strconv.Itoa(hr.Status), kind, fmt.Sprint(reached)}, "|"))
+	rep.Distinct(dcase(pos.name, cl.variant, fmt.Sprint(cl.json), pc.name, strconv.Itoa(hr.Status), kind, fmt.Sprint(reached)))
 	if reached && !utf8Declared {
 		// a page that shows request-controlled text and leaves its encoding to the browser's sniffing (or declares a
 		// legacy one) is open to ISO-2022-JP / UTF-7 style encoding confusion: the text is no longer inert
@@ -343,16 +468,16 @@ func runCase(rep *vh.Report, c *ctx, i int, cl cell, pc payloadClass, r *rand.Ra
 		kc.Detail = fmt.Sprintf("Content-Type %q, declared charset %q (BOM / Content-Type charset parameter / <meta> in the first 1024 bytes)", hct, declared)
 		kc.BodyClip = excerptAround(hr.Body, hNeedles[0])
 		sig := "html-page-without-declared-utf8-charset page=" + kind
-		rep.Violate("c20", i, sig, fmt.Sprintf("%s: %s (position %s, variant %s, payload class %s)", sig, kc.Detail, pos.name, cl.variant, pc.name), kc)
+		rep.Violate(stream, i, sig, fmt.Sprintf("%s: %s (position %s, variant %s, payload class %s, request headers %q)", sig, kc.Detail, pos.name, cl.variant, pc.name, hs.String()), kc)
 	}
 	if i%97 == 0 && reached {
 		rep.Sample(kc)
 	}
 
 	var tv *htmlView
-	comparable := isHTML(tct) && tr.Status == hr.Status
+	comparable := tbv.Class == hbv.Class && tr.Status == hr.Status
 	if comparable {
-		tv = analyse(tr.Body, tNeedles, twin)
+		tv = look(tr.Body, tNeedles, twin)
 	}
 
 	// occurrences in slots that are never data: judged against the twin when there is one, else absolutely
@@ -365,6 +490,21 @@ func runCase(rep *vh.Report, c *ctx, i int, cl cell, pc payloadClass, r *rand.Ra
 	}
 	if len(misplaced) > 0 {
 		rep.Count("marker_misplaced", len(misplaced))
+	}
+	if !comparable && tr.Status == hr.Status {
+		// Same request but for the payload, same status - and only the hostile text makes a browser parse the answer as
+		// (this kind of) markup: the benign render is inert text / JSON / another document type, so every element of the
+		// hostile render was put there by request-controlled text (or the text chose the document type).
+		rep.Count("document_type_decided_by_request_text", 1)
+		what := fmt.Sprintf("a browser reads the hostile render as %s but the benign render of the same request as %s", hbv.String(), tbv.String())
+		if len(misplaced) > 0 {
+			what += "; marker found in " + strings.Join(misplaced, ", ")
+		}
+		if n := len(hv.Skel); n > 0 {
+			what += "; hostile document begins " + clip(strings.Join(hv.Skel[:minInt(n, 4)], " "), 120)
+		}
+		violate("browser-parses-response-as-markup-only-when-input-is-hostile", nonMarkupKindOrPage(pos.stack, tbv, tr.Body), what, hNeedles[0])
+		return
 	}
 	if !comparable {
 		rep.Count("diverged_from_twin", 1)
@@ -379,6 +519,9 @@ func runCase(rep *vh.Report, c *ctx, i int, cl cell, pc payloadClass, r *rand.Ra
 	}
 	rep.Count("html_compared_with_twin", 1)
 	rep.Count("compared."+pos.name, 1)
+	if hs != nil {
+		rep.Count("rep_stream.html_compared_with_twin", 1)
+	}
 	if d := firstDiff(hv.Skel, tv.Skel); d != "" {
 		rep.Count("skeleton_mismatch", 1)
 		if len(misplaced) > 0 {
@@ -402,7 +545,7 @@ func runCase(rep *vh.Report, c *ctx, i int, cl cell, pc payloadClass, r *rand.Ra
 			violate("payload-marker-outside-text-and-own-attribute-value", kind, "marker occurs at "+o+" where the benign render has none (benign: "+strings.Join(sortedKeys(tv.Occ), " ")+")", hNeedles[0])
 		}
 	}
-	if utf8Declared {
+	if utf8Declared || hbv.Class == "xml" {
 		return
 	}
 	// no (UTF-8) declaration: read both renders the way a sniffing browser may and compare again
@@ -432,4 +575,26 @@ func runCase(rep *vh.Report, c *ctx, i int, cl cell, pc payloadClass, r *rand.Ra
 			return
 		}
 	}
+}
+
+// nonMarkupKindOrPage names the benign render a hostile markup render is set against.
+func nonMarkupKindOrPage(stack string, v bview, body []byte) string {
+	if v.markup() {
+		return pageKind(stack, v.Class, analyse(body, nil, ""), body)
+	}
+	if v.Class == "json" || v.Class == "empty" {
+		return nonMarkupKind(stack, v)
+	}
+	// text/plain and any other media type a browser shows or downloads without parsing markup: one class
+	if stack == "dauth" {
+		stack = "auth"
+	}
+	return stack + ".inert_body"
+}
+
+func minInt(a, b int) int {
+	if a < b {
+		return a
+	}
+	return b
 }
